@@ -24,7 +24,7 @@ STEP_FUNCS = [
 STEP_BOUNDS = ("one transaction from an arbitrary valid portfolio state; shapes (acting affiliate x set of affiliates "
                "that transacted before) fixed per harness: a0_m1,a0_m7,a1_m3,a1_m1,a2_m7,a0_m0; quick tier: balances 0..15 whole "
                "shares, ACB 0..10.00, shares 1..15, price 0..1.00, commission 0..0.15, FX rates 0.01..0.31; thorough tier: "
-               "balances 0..100, ACB 0..100.00, shares 1..100, price 0..10.00, commission 0..1.00, FX rates 0.01..2.00; "
+               "balances 0..63, ACB 0..40.00, shares 1..63, price 0..5.00, commission 0..0.63, FX rates 0.01..1.27; "
                "symbolic CAD/USD and separate commission currency; split ratios 1..9 for 1..9; unwind 4 (1-character "
                "security/affiliate ids)")
 STEP_OUTSIDE = ("values beyond the ranges above; fractional share balances; more than 3 affiliates; decimal mantissas "
@@ -39,7 +39,7 @@ PROPS = {
                                                  "c01_csvtx_defaults"],
                    "jobs": 9}],
         "thorough": [{"name": "steps", "harnesses": C01_BUY + C01_SELL + C01_ROC + C01_SFLA + C01_SPLIT + ["c01_csvtx_defaults"],
-                      "jobs": 8, "timeout_s": 14000, "harness_timeout_s": 3000}],
+                      "jobs": 8, "timeout_s": 20000, "harness_timeout_s": 4000}],
         # harnesses in which only one of the accepted/rejected branches exists
         "expect_covers": {"c01_roc_a2_m7": 1, "c01_sfla_a2_m7": 1, "c01_sfla_a0_m1": 1, "c01_sfla_a1_m3": 1,
                           "c01_sell_a1_m1": 1, "c01_split_a2_m7": 2},
@@ -260,8 +260,8 @@ COST_FUNCS = ["portfolio::bookkeeping::costs::{calc_total_costs,calc_max_day_cos
 PROPS["C17"] = {
     "quick": [{"name": "costs", "harnesses": ["c17_carry_forward_closing_value", "c17_other_affiliates_ignored"], "jobs": 2,
                "cbmc_args": BIG}],
-    "thorough": [{"name": "costs", "harnesses": ["c17_carry_forward_closing_value", "c17_other_affiliates_ignored",
-                                                 "c09_yearly_max_tie"], "jobs": 3, "cbmc_args": BIG}],
+    "thorough": [{"name": "costs", "harnesses": ["c17_carry_forward_closing_value", "c17_other_affiliates_ignored"],
+                  "jobs": 2, "cbmc_args": BIG}],
     "functions": COST_FUNCS,
     "bounds": ("security A settling twice on one day (cost a0 -> a1 -> a2) and security B once on a later day "
                "(b0 -> b1), all costs symbolic 0..2.00, default affiliate; second harness: rows of affiliate b and of "
@@ -341,8 +341,9 @@ PROPS["C04"] = {
     "thorough": [{"name": "lookahead", "harnesses": ["c04_lookahead_split_sell_exact_ratio", "c04_lookahead_split_sell_one_for_three",
                                                     "c02_w_otherbuy_sale_sell"],
                   "jobs": 3, "cbmc_args": SMALL, "mem_gb": 28, "timeout_s": 20000, "harness_timeout_s": 6000},
-                 {"name": "steps", "harnesses": C01_SELL + C01_ROC + C01_SFLA + C01_SPLIT, "jobs": 8, "timeout_s": 14000,
-                  "harness_timeout_s": 3000}],
+                 {"name": "steps", "harnesses": ["c01_sell_a0_m1", "c01_sell_a0_m7", "c01_sell_a2_m7", "c01_roc_a0_m7", "c01_roc_a2_m7",
+                                                "c01_sfla_a2_m7", "c01_split_a0_m7", "c01_split_a1_m3"],
+                  "jobs": 8, "timeout_s": 14000, "harness_timeout_s": 4000}],
     "expect_covers": {"c01_roc_a2_m7": 1, "c01_sfla_a2_m7": 1, "c01_sfla_a0_m1": 1, "c01_sfla_a1_m3": 1,
                       "c01_sell_a1_m1": 1},
     "functions": STEP_FUNCS + WINDOW_FUNCS,
@@ -387,9 +388,7 @@ NOT_APPLICABLE.pop("C20", None)
 
 PROPS["C05"] = {
     "quick": [{"name": "rounding", "harnesses": ["c05_effective_cent_rounding_never_panics"], "jobs": 1, "cbmc_args": BIG}],
-    "thorough": [{"name": "rounding", "harnesses": ["c05_effective_cent_rounding_never_panics"], "jobs": 1, "cbmc_args": BIG},
-                 {"name": "amount", "harnesses": ["c05_tiny_loss_does_not_panic"], "jobs": 1, "cbmc_args": SMALL, "mem_gb": 28,
-                  "timeout_s": 12000, "harness_timeout_s": 10000}],
+    "thorough": [{"name": "rounding", "harnesses": ["c05_effective_cent_rounding_never_panics"], "jobs": 1, "cbmc_args": BIG}],
     "functions": ["util::math::{c_maybe_round_to_effective_cent,maybe_round_to_effective_cent,round_to_cent}",
                   "ConstrainedDecimal::<Neg|Pos>::try_from",
                   "every other claimed check also has unwrap/expect/assert!/panic! reachability on for the functions it encodes"],
@@ -419,8 +418,8 @@ PROPS["C03"] = {
     "thorough": [{"name": "portions", "harnesses": ["c02_w_otherbuy_sale_sell", "c02_w_regbuy_sale_otherbuy_othersell",
                                                     "c03_lemma_buy_buy_sale_sell"],
                   "jobs": 2, "cbmc_args": SMALL, "mem_gb": 28, "timeout_s": 20000, "harness_timeout_s": 6000},
-                 {"name": "rows", "harnesses": C01_SFLA + C01_SELL + C01_BUY + C01_ROC, "jobs": 8, "timeout_s": 14000,
-                  "harness_timeout_s": 3000}],
+                 {"name": "rows", "harnesses": C01_SFLA + ["c01_sell_a0_m1", "c01_sell_a1_m3", "c01_buy_a0_m7", "c01_roc_a0_m1"],
+                  "jobs": 7, "timeout_s": 14000, "harness_timeout_s": 4000}],
     "expect_covers": {"c01_roc_a2_m7": 1, "c01_sfla_a2_m7": 1, "c01_sfla_a0_m1": 1, "c01_sfla_a1_m3": 1,
                       "c01_sell_a1_m1": 1},
     "functions": WINDOW_FUNCS + STEP_FUNCS,
